@@ -4,12 +4,17 @@
 #include "spec/iauth_model.h"
 #include "spec/set_model.h"
 #include "harness/iauth_common.h"
+#include "spec/ghost.h"
+
+#ifndef CN_MAX
+#define CN_MAX 70
+#endif
 
 /* ------------------------------------------------------------------ symbolic inputs */
 struct { int have_class, have_account, have_username, have_hostname, have_xreply; unsigned bits; int trust; unsigned assigned; irc_inaddr addr; } in_rule;
 struct { int r[3]; } in_fn;          /* results of the three glob matches, in call order */
 int in_xok;                          /* result of iauth_xreply_ok */
-struct { char s[70]; } in_cname;     /* rule->class or rule->name text */
+struct { char s[CN_MAX]; } in_cname;     /* rule->class or rule->name text */
 
 static struct iauth_class_rule rule;
 static unsigned fn_calls;
@@ -45,7 +50,7 @@ void h_rule_check(void)
     char class0[CLASSLEN + 1];
     req = mk_request();
     V_IN(in_rule); V_IN(in_fn); V_IN(in_xok); V_IN(in_cname);
-    in_cname.s[69] = '\0';
+    in_cname.s[CN_MAX - 1] = '\0';
     /* INV: an ident was recorded together with its flag (parse_ident) */
     V_ASSUME(req->auth_username[0] == '\0' || BITSET_GET(req->flags, IAUTH_GOT_IDENT));
     memset(&rule, 0, sizeof(rule));
